@@ -10,7 +10,7 @@ const char *behav_name(int b) {
 	static const char *n[] = {"honest", "foreign-id", "stale-gen", "other-hash", "broken-link", "lc-256", "lc-2^32", "low-level",
 		"wrong-agg-time", "wrong-pub-time", "bad-shape", "other-input", "altered-right-link", "status-err", "error-pdu",
 		"bad-mac", "other-key", "other-alg", "other-ver", "no-header", "no-mac", "truncated", "garbage-pdu", "conf-only",
-		"with-conf", "no-cal", "index-gap", "index-short", "index-prefix", "index-shape", "status-with-content", "extra-links", "no-agg-time", "response-plus-error", "v1-reflected-request", "pub-shifted-no-agg-time", "metadata-imprint-like", "over-long-imprint"};
+		"with-conf", "no-cal", "index-gap", "index-short", "index-prefix", "index-shape", "status-with-content", "extra-links", "no-agg-time", "response-plus-error", "v1-reflected-request", "pub-shifted-no-agg-time", "metadata-imprint-like", "over-long-imprint", "legacy-id-unterminated"};
 	return (b >= 0 && b < B__COUNT) ? n[b] : "?";
 }
 
@@ -153,6 +153,13 @@ bool classify_response(const std::string &pdu, const std::string &key, RespInfo 
 					auto badimp = [](const std::string &x) { return x.empty() || hash_len((unsigned char)x[0]) == 0 || (size_t)hash_len((unsigned char)x[0]) + 1 != x.size(); };
 					if (badimp(a.input)) r.malformed_imprint = true;
 					for (auto &l : a.links) if (l.kind == 0 && badimp(l.sib)) r.malformed_imprint = true;
+					// (the same holds for a legacy id that breaks its fixed format)
+					for (auto &l : a.links) if (l.kind == 1) {
+						const std::string &x = l.sib;
+						bool okid = x.size() == 29 && x[0] == 0x03 && x[1] == 0x00 && (unsigned char)x[2] <= 25;
+						if (okid) for (size_t k = 3 + (unsigned char)x[2]; k < 29; k++) if (x[k] != 0) okid = false;
+						if (!okid) r.malformed_imprint = true;
+					}
 				}
 				r.first_input = in;
 			}
@@ -300,6 +307,7 @@ std::vector<AggChain> World::build_chains(const std::string &hash, uint64_t leve
 			else if (kind == 1) { l.kind = 2; l.sib = metadata_payload("client-" + std::to_string(rng.below(1000)), true); }
 			else { l.kind = 0; l.sib = imprint(rng.chance(1, 5) ? 5 : 1, "sib" + std::to_string(rng.next())); }
 			if (behav == B_METADATA_IMPRINT_LIKE && i == n - 1 && j == nl - 1) { l.kind = 2; l.sib = metadata_payload(std::string(30, 'c'), false); }
+			if (behav == B_LEGACY_ID_UNTERMINATED && i == n - 1 && j == nl - 1 && !(i == 0 && j == 0)) { l.kind = 1; l.sib = legacy_id("GT :: ref"); l.sib[3 + 9] = 'x'; }
 			if (behav == B_LONG_IMPRINT && i == n - 1 && j == nl - 1) { l.kind = 0; l.sib = imprint(1, "long sib" + std::to_string(subseed)) + std::string(8, '\x5a'); }
 			c.links.push_back(l);
 		}
@@ -467,7 +475,7 @@ std::string World::ext_reply(const ReqInfo &rq, const EndpointCfg &ep, int behav
 	Rng rng(sim::mix(subseed, 0xe47));
 	// behaviours that only make sense for aggregation chains are plain honest replies here
 	if (behav == B_OTHER_HASH || behav == B_BROKEN_LINK || behav == B_LC_256 || behav == B_LC_2P32 || behav == B_LOW_LEVEL || behav == B_NO_CAL ||
-	    behav == B_INDEX_GAP || behav == B_INDEX_SHORT || behav == B_INDEX_PREFIX || behav == B_INDEX_SHAPE || behav == B_METADATA_IMPRINT_LIKE || behav == B_LONG_IMPRINT) behav = B_HONEST;
+	    behav == B_INDEX_GAP || behav == B_INDEX_SHORT || behav == B_INDEX_PREFIX || behav == B_INDEX_SHAPE || behav == B_METADATA_IMPRINT_LIKE || behav == B_LONG_IMPRINT || behav == B_LEGACY_ID_UNTERMINATED) behav = B_HONEST;
 	if (behav == B_WRONG_PUB_TIME && !rq.has_pub_time) behav = B_HONEST; // any publication time answers a request that names none
 	meta = ReplyMeta();
 	meta.behav = behav;
